@@ -27,7 +27,10 @@ def _explore_one(args):
     path = os.path.join(PATHS, key + '.json')
     lock = open(path + '.lock', 'w'); fcntl.flock(lock, fcntl.LOCK_EX)
     try:
-        if os.path.exists(path): return path, True
+        if os.path.exists(path):
+            try:
+                if json.load(open(path)).get('status') == 'ok': return path, True      # only completed explorations are reused
+            except Exception: pass
         try:
             r = explore_template(S, tmpl, budget_paths=budget_paths, budget_s=budget_s, hash_order=hash_order)
             r['status'] = 'ok'
